@@ -54,7 +54,7 @@ def run(tier):
         return R.finish(VC.TRUSTED, VC.ASSUME, RULE, "make -C coq Properties/C12.vo")
     M = common.Model()
     cases = VC.gen_pairs(R, 4000 if tier == "quick" else 80000) + VC.edge_pairs(R, 300 if tier == "quick" else 6000)
-    reqs, idx = [], []
+    reqs, idx, mem_reqs, mem_idx = [], [], [], []
     for c in cases:
         if isinstance(c.ca, Exception) or isinstance(c.cb, Exception):
             R.count("operand_rejected"); continue
@@ -69,6 +69,17 @@ def run(tier):
         if d: R.fail(dict(a=c.a, b=c.b), d)
         if VC.model_ok(c):
             reqs.append(["cpred", I.spec(c.ga), I.spec(c.gb)]); idx.append(c)
+            # the answers are about `allows`: the operands' own membership is tied to the model on every critical probe, regular or not
+            if len(mem_idx) < (1500 if tier == "quick" else 30000):
+                for cx, gx, tx in ((c.ca, c.ga, c.a), (c.cb, c.gb, c.b)):
+                    mem_reqs.append(["cparse", "0", I.spec(gx)] + [v.text for v in probes]); mem_idx.append((tx, cx, probes))
+    for (tx, cx, probes), m in zip(mem_idx, M.many(mem_reqs) if mem_reqs else []):
+        R.count("operand_membership_cases")
+        if m[:1] != ["ok"]: continue
+        obs = [I.allows(cx, v) for v in probes]
+        if m[6:] != obs:
+            bad = [v.text for v, x, y in zip(probes, m[6:], obs) if x != y][:5]
+            R.disagree("membership of an operand", dict(a=tx), dict(differing_probes=bad), "implementation differs on these probes")
     for c, m in zip(idx, M.many(reqs)):
         exp = [I.guarded(lambda: c.ca.allows_all(c.cb)), I.guarded(lambda: c.ca.allows_any(c.cb))]
         exp = [exp[0] if isinstance(exp[0], str) else ("true" if exp[0] else "false"),
